@@ -1,12 +1,23 @@
 (* C13  DKIM signatures verify under an independent RFC 6376 verifier.  Statements only.
-   Proved here: the part of the claim that is about text, for all inputs - the emitted DKIM-Signature field
-   gives back, under RFC 6376 3.7, exactly the text that was hashed.  The agreement of the code's body and
-   header canonicalization with the RFC's line/field based definitions (Spec/Dkim.v) and the cryptographic
-   acceptance are decided by the check on the implementation (exhaustive small sweep model = specification,
-   independent verifier); they are not theorems. *)
+   Proved here, for all inputs: the body canonicalization the code computes (one pass over the octets) is the
+   RFC 6376 3.4.3 / 3.4.4 canonicalization defined on lines (Spec/Dkim.v), simple and relaxed, for every body
+   that is a sequence of CRLF-terminated lines (what Message::body_raw hands over); and the emitted
+   DKIM-Signature field gives back, under RFC 6376 3.7, exactly the text that was hashed.  The agreement of
+   the relaxed HEADER pass with the RFC's field-based definition and the cryptographic acceptance are
+   decided by the check on the implementation (exhaustive sweep, independent verifier); not theorems. *)
 From Coq Require Import Strings.String.
-From LV Require Import Base.Bytes Base.Str Base.Res Model.HeaderEnc Model.Headers Model.Dkim Spec.Rfc5322 Spec.Dkim Proofs.DkimProofs.
+From LV Require Import Base.Bytes Base.Str Base.Res Model.HeaderEnc Model.Headers Model.Dkim Spec.Rfc5322 Spec.Dkim Proofs.DkimProofs Proofs.DkimBodyProofs.
 Local Open Scope nat_scope.
+
+(* For EVERY non-empty sequence of lines without an inner CRLF (any octets otherwise: bare CR, bare LF, NUL,
+   8-bit, any length, any number of trailing empty or white-space-only lines): what the code hashes is what
+   the RFC says a verifier hashes.  `terminated ls` is the body l1 CRLF l2 CRLF ... ln CRLF. *)
+Theorem C13_simple_body_canonicalization : forall ls,
+  ls <> [] -> Forall line_ok ls -> canon_body Simple (terminated ls) = spec_body false (terminated ls).
+Proof. exact simple_body_is_rfc. Qed.
+Theorem C13_relaxed_body_canonicalization : forall ls,
+  ls <> [] -> Forall line_ok ls -> canon_body Relaxed (terminated ls) = spec_body true (terminated ls).
+Proof. exact relaxed_body_is_rfc. Qed.
 
 (* For EVERY tag list written before b= (any number of tags, any folding inside them, none of them named b,
    no ';' inside a tag), every spelling `n` of the tag name b and every signature text without ';' (any
@@ -40,5 +51,7 @@ Example C13_example :
   end.
 Proof. vm_compute. repeat split. Qed.
 
+Print Assumptions C13_simple_body_canonicalization.
+Print Assumptions C13_relaxed_body_canonicalization.
 Print Assumptions C13_signature_field_recovers_hashed_text.
 Print Assumptions C13_folded_signature_is_a_tag_value.
